@@ -79,4 +79,15 @@ TEXTS = {
                   'run quantize(calibrate()) for missing statistics, over anchored and ;-containing regexes.'),
         'note': 'No-missing-statistics executed, not proved. Axioms: none.',
     },
+    'C17': {
+        'level': ('Theorems over ALL real ranges min<=max, bit widths >= 2, both symmetries (ideal arithmetic, Flocq '
+                  'round-half-even): scale > 0, zero point in range, zero exactly representable, range covered up to '
+                  'half a step, quantize in (narrow) range and monotone, |deq(q x) - x| <= scale/2 in range, '
+                  'q(deq c) = c for every code. The implemented float32/float64 arithmetic is a bit-exact Flocq model '
+                  '(correspondence A: thousands of rows compared as IEEE bit patterns with numpy) on which every '
+                  '4/8-bit code is swept inside the kernel over a stated grid; scale finiteness is REFUTED for ranges '
+                  'wider than FLT_MAX (known finding F12); the int8 wrap-around defect (F11) was repaired.'),
+        'note': ('Float32-vs-real rounding envelope not proved. Axioms: the standard Reals axioms via Flocq '
+                 '(sig_forall_dec, sig_not_dec, functional_extensionality_dep, classic).'),
+    },
 }
